@@ -21,7 +21,7 @@ pub fn def() -> PropDef {
     PropDef {
         id: "C03",
         level: "exploration",
-        rule: "for each validly signed base entry: every single-byte alteration (each byte position of its wire encoding x {xor 0x01, xor 0x80, :=0x00, :=0xff}) that the crate still decodes, the two signatures swapped, signatures taken from another entry (other key / other author / other namespace), a validly signed entry of a foreign namespace, author/namespace ids that are not curve points, timestamps now+10min-1/+0/+1 and the four emptiness combinations; each candidate is presented as a single remote insert to a replica that already holds the untampered original (signatures it has seen before), as a single remote insert and inside a hand-assembled reconciliation message at every position of every part (1..3 parts, 1..2 entries per part) among valid filler entries; the verdict is compared with an independent acceptance predicate; non-trivial = distinct candidates that the crate decodes and that differ from the base entry",
+        rule: "for each validly signed base entry: every single-byte alteration (each byte position of its wire encoding x {xor 0x01, xor 0x80, :=0x00, :=0xff}) that the crate still decodes, the two signatures swapped, signatures taken from another entry (other key / other author / other namespace), a validly signed entry of a foreign namespace, an entry claiming our namespace signed with a foreign namespace secret and entries naming a foreign / an unknown namespace signed with our namespace secret, author/namespace ids that are not curve points, timestamps now+10min-1/+0/+1 and the four emptiness combinations; each candidate is presented as a single remote insert to a replica that already holds the untampered original (signatures it has seen before), as a single remote insert and inside a hand-assembled reconciliation message at every position of every part (1..3 parts, 1..2 entries per part) among valid filler entries; the verdict is compared with an independent acceptance predicate; non-trivial = distinct candidates that the crate decodes and that differ from the base entry",
         assumptions: &[
             "ed25519 itself (unforgeability, strictness) is trusted: the predicate asks the same library routine with an independently computed message and keys",
             "candidates are single-fault: one altered byte or one substituted field per entry",
@@ -157,6 +157,18 @@ fn candidates(base: &Spec) -> Vec<Candidate> {
         let forged = SignedEntry::from_entry(entry, &ns_secret(1), &author(base.author));
         v.push(Candidate {
             label: "signed_with_foreign_namespace_secret".into(),
+            bytes: postcard::to_stdvec(&forged).unwrap(),
+        });
+    }
+    // the mirror image: the identifier names a foreign document (an existing one and one nobody
+    // holds), the namespace signature is made with *our* document's secret (a peer with write
+    // access to our document can produce this)
+    for (label, foreign) in [("foreign_namespace_id_signed_with_our_secret", ns_id(1)), ("unknown_namespace_id_signed_with_our_secret", iroh_docs::NamespaceSecret::from_bytes(&[0xd7; 32]).id())] {
+        let id = iroh_docs::sync::RecordIdentifier::new(foreign, author(base.author).id(), &base.key);
+        let entry = iroh_docs::sync::Entry::new(id, base.record());
+        let forged = SignedEntry::from_entry(entry, &ns_secret(0), &author(base.author));
+        v.push(Candidate {
+            label: label.into(),
             bytes: postcard::to_stdvec(&forged).unwrap(),
         });
     }
